@@ -175,6 +175,47 @@ fn cmd_attr(rest: &str) -> String {
     }
 }
 
+/// `xid <hex>`: per character the classes derive_more's parser uses (`unicode-xid`), and
+/// `char::is_whitespace`.
+fn cmd_xid(arg: &str) -> String {
+    use unicode_xid::UnicodeXID as _;
+    let Some(s) = hex_decode(arg) else {
+        return "bad-op".into();
+    };
+    s.chars()
+        .map(|c| {
+            format!(
+                "{}{}{}",
+                if c.is_xid_start() { 's' } else { '-' },
+                if c.is_xid_continue() { 'c' } else { '-' },
+                if c.is_whitespace() { 'w' } else { '-' }
+            )
+        })
+        .collect::<Vec<_>>()
+        .join(",")
+}
+
+/// Same digest as the oracle's `xidtable`, over the `unicode-xid` tables (`_` counted as start).
+fn cmd_xidtable() -> String {
+    use unicode_xid::UnicodeXID as _;
+    let mut out = String::new();
+    for (name, start) in [("start", true), ("cont", false)] {
+        let mut h: u64 = 0xcbf29ce484222325;
+        let mut n = 0u32;
+        for u in 0..=0x10FFFFu32 {
+            if let Some(c) = char::from_u32(u) {
+                let v = if start { c == '_' || c.is_xid_start() } else { c.is_xid_continue() };
+                if v {
+                    n += 1;
+                    h = (h ^ u as u64).wrapping_mul(0x100000001b3);
+                }
+            }
+        }
+        out.push_str(&format!("{name}:{n}:{h:x} "));
+    }
+    out
+}
+
 fn handle(line: &str) -> String {
     let line = line.trim_end_matches(['\n', '\r']);
     let (cmd, rest) = match line.split_once(' ') {
@@ -187,6 +228,8 @@ fn handle(line: &str) -> String {
         #[cfg(feature = "jeltef_derive_more_verif")]
         "attr" => cmd_attr(rest),
         "derives" => crate::dispatch::DERIVES.join(" "),
+        "xid" => cmd_xid(rest.trim()),
+        "xidtable" => cmd_xidtable(),
         _ => "bad-op".into(),
     }
 }
